@@ -87,7 +87,7 @@ pub fn run_property(id: &str, opts: &Opts) -> i32 {
             Value::Null,
         ),
         "C07" => (
-            vec![run_part::<c07::C07>(opts), run_part::<c07::C07Prefix>(opts)],
+            vec![run_part::<c07::C07>(opts), run_part::<c07::C07Prefix>(opts), run_part::<c07::C07Timed>(opts)],
             A_PLAN,
             Value::Null,
         ),
@@ -106,7 +106,7 @@ pub fn run_property(id: &str, opts: &Opts) -> i32 {
             Value::Null,
         ),
         "C15" => (
-            vec![run_part::<c15::C15Explore>(opts), run_part::<c15::C15Random>(opts), run_part::<c15::C15Chunked>(opts)],
+            vec![run_part::<c15::C15Explore>(opts), run_part::<c15::C15Random>(opts), run_part::<c15::C15Chunked>(opts), run_part::<c15::C15ReSetup>(opts)],
             A_PLAN,
             Value::Null,
         ),
@@ -159,6 +159,7 @@ pub fn replay(opts: &Opts, doc: &Value) -> i32 {
     try_part!(c06::C06);
     try_part!(c07::C07);
     try_part!(c07::C07Prefix);
+    try_part!(c07::C07Timed);
     try_part!(c08::C08);
     try_part!(c08::C08WellFormed);
     try_part!(c09::C09);
@@ -172,6 +173,7 @@ pub fn replay(opts: &Opts, doc: &Value) -> i32 {
     try_part!(c15::C15Explore);
     try_part!(c15::C15Random);
     try_part!(c15::C15Chunked);
+    try_part!(c15::C15ReSetup);
     try_part!(c15::C16Explore);
     try_part!(c15::C16Random);
     try_part!(c15::C16GoalBias);
